@@ -18,6 +18,7 @@ TRACED_SUFFIXES = (
     'kmip/services/server/auth/slugs.py',
     'kmip/services/server/auth/utils.py',
     'kmip/core/policy.py',
+    'kmip/services/server/crypto/engine.py',
 )
 
 
@@ -42,7 +43,8 @@ class Task(object):
 
 class Scheduler(object):
     def __init__(self, preempts=None, tiebreaks=None, clock=None,
-                 step_cap=400000, traced=TRACED_SUFFIXES, site_filter=None):
+                 step_cap=400000, traced=TRACED_SUFFIXES, site_filter=None,
+                 release_yields=None):
         self.tasks = []
         self.by_name = {}
         self.current = None
@@ -64,6 +66,11 @@ class Scheduler(object):
         self.seq = 0
         self.lock_order = []
         self.site_filter = site_filter
+        # lock releases (by ordinal) after which the releasing task hands
+        # the baton to another runnable task; 'all' = every release
+        self.release_yields = release_yields
+        self.releases = 0
+        self.fired_release_yields = 0
 
     # ------------------------------------------------------------------
     def spawn(self, name, fn):
@@ -206,6 +213,27 @@ class Scheduler(object):
                     target = others[0]
                 self._handoff(t, 'preempt', to=target, site=site)
 
+    def release_point(self, t):
+        """Task t has just released a lock completely: a scheduling point
+        of its own (the waiters of a real lock get to run here, and code
+        that gives the lock up in the middle of a request must be seen
+        doing so even when no traced line lies inside the window)."""
+        if self.current is not t:
+            return
+        self.releases += 1
+        ry = self.release_yields
+        if not ry or (ry != 'all' and self.releases not in ry):
+            return
+        others = [x for x in self.runnable() if x is not t]
+        if not others:
+            return
+        k = 0
+        if self.tb_used < len(self.tiebreaks):
+            k = self.tiebreaks[self.tb_used] % len(others)
+        self.tb_used += 1
+        self.fired_release_yields += 1
+        self._handoff(t, 'release', to=others[k])
+
     def block(self, t, on):
         t.state = 'blocked'
         t.blocked_on = on
@@ -289,15 +317,21 @@ class SimRLock(object):
 
     def release(self):
         s = SimRLock.sched
+        me = s.me() if s is not None else None
+        holder = me if me is not None else threading.current_thread()
+        if self.depth <= 0 or self.owner is not holder:
+            # as threading.RLock does
+            raise RuntimeError('cannot release un-acquired lock')
         self.depth -= 1
         if self.depth == 0:
             self.owner = None
             if s is not None:
-                me = s.me()
                 s.event('lock-release', task=me.name if me else None)
                 for w in self.waiters:
                     s.unblock(w)
             self.waiters = []
+            if me is not None:
+                s.release_point(me)
 
     __enter__ = acquire
 
